@@ -393,9 +393,10 @@ def run(ctx):
     ops.append(f'c10.bundle {hexs(f15_witness(1, 200000))}')
 
     # ---- bundle-signature verifier on really-signed attacker bytes
-    subs = ctx.go([f'bsig.subset {hexs(b"https://example.com/validity")}|{hexs(bytes(32))}|{date}|{date + 3600}|'
-                   + ','.join(f'{hexs(b"https://example.com/%d" % i)}^-^{hexs(bytes(32))}~{hexs(b"digest/mi-sha256-03")}' for i in range(n))
-                   for n in (1, 3)])
+    # (auth-sha256 of every length around 32, header hashes likewise: these are attacker-chosen byte strings inside a correctly signed subset)
+    subs = ctx.go([f'bsig.subset {hexs(b"https://example.com/validity")}|{hexs(bytes(alen)) if alen else "-"}|{date}|{date + 3600}|'
+                   + ','.join(f'{hexs(b"https://example.com/%d" % i)}^-^{hexs(bytes(hlen))}~{hexs(b"digest/mi-sha256-03")}' for i in range(n))
+                   for n, alen, hlen in ((1, 32, 32), (3, 32, 32), (1, 31, 32), (1, 0, 32), (1, 33, 32), (1, 1, 32), (1, 64, 32), (1, 32, 31), (1, 32, 0), (2, 32, 33))])
     chainspec = f'{k0["cert"]}:{hexs(b"ocsp")}:nil'
     for r in subs:
         if not (r and r.startswith('ok ')):
